@@ -106,7 +106,7 @@ static void incrCase(Rng &rng, CaseResult &r) {
     subset.resize((size_t)rng.range(0, (long long)subset.size()));
   } else if (mode == 2) subset.clear();
   else if (mode == 3) for (int i = (int)subset.size() - 1; i > 0; --i) std::swap(subset[i], subset[rng.range(0, i)]);
-  int nUpd = (int)rng.range(0, 30);
+  int nUpd = rng.chance(0.05) ? (int)rng.range(31, 300) : (int)rng.range(0, 30);
   if (r.needSample()) r.sample = vf::J::obj().kv("axis", xAxis ? "x" : "y").kv("mode", mode).kraw("subset", vf::jarr(subset)).kv("updates", nUpd).kraw("circuit", circuitJson(c)).str();
   if (r.dumpOnly) return;
   IncrNetModel m = mode == 0 ? (xAxis ? IncrNetModel::xTopology(c) : IncrNetModel::yTopology(c)) : (xAxis ? IncrNetModel::xTopology(c, subset) : IncrNetModel::yTopology(c, subset));
